@@ -1,1 +1,33 @@
-fn main(){}
+//! chk-rustls: the rustls half of C12 (ipp built with client-rustls + async-client-rustls).
+//!   chk-rustls C12 quick|thorough            -> prints "RESULTS <json array>"
+//!   chk-rustls C12 replay '<cell json>'      -> prints "RESULTS [<one result>]"
+
+#[path = "../../shared/tls_matrix.rs"]
+mod tls_matrix;
+
+use tls_matrix::*;
+
+fn main() {
+    let args: Vec<String> = std::env::args().collect();
+    vcore::runner::install_silent_panic_hook();
+    if args.len() < 3 || args[1] != "C12" {
+        eprintln!("usage: chk-rustls C12 quick|thorough|replay <cell>");
+        std::process::exit(2);
+    }
+    let results = if args[2] == "replay" {
+        let v: serde_json::Value = serde_json::from_str(args.get(3).map(|s| s.as_str()).unwrap_or("null")).unwrap_or(serde_json::Value::Null);
+        replay_cell("rustls", &v).map(|r| vec![r])
+    } else {
+        run_matrix("rustls", args[2] == "thorough")
+    };
+    match results {
+        Ok(rs) => {
+            let arr: Vec<serde_json::Value> = rs.iter().map(result_json).collect();
+            println!("RESULTS {}", serde_json::Value::Array(arr));
+        }
+        Err(e) => {
+            eprintln!("chk-rustls: {e}");
+            std::process::exit(2);
+        }
+    }
+}
